@@ -622,7 +622,7 @@ fn after_error_session(ctx: &Ctx, rng: &mut Rng, rep: &mut Report, k: usize, tag
 pub fn c13(ctx: &Ctx) -> Report {
     let mut rep = Report::new("C13");
     let mut rng = Rng::new(ctx.seed ^ 0xC13);
-    let nconf = if ctx.thorough { 18 } else { 3 };
+    let nconf = if ctx.thorough { 18 } else { 2 };
     for k in 0..nconf {
         let cfg = random_cfg(&mut rng, k);
         let tag = format!("c13/{}/{k}", ctx.seed);
@@ -639,7 +639,7 @@ pub fn c13(ctx: &Ctx) -> Report {
             correspond(&mut rep, &mut rig, &Call::Read(1, 1), &res, &log, delays, &tag);
             let pre: usize = log.iter().take_while(|t| t.out.len() != 512).map(|t| t.out.len()).sum();
             let per_call: usize = log.iter().map(|t| t.out.len()).sum();
-            let step = if ctx.thorough { 1 } else { 7 };
+            let step = if ctx.thorough { 1 } else { 13 };
             let mut bit = 0usize;
             while bit < 4112 {
                 let base = rig.bus.borrow().miso_bytes;
@@ -659,7 +659,7 @@ pub fn c13(ctx: &Ctx) -> Report {
                 bit += step;
             }
             // bursts up to 16 bits
-            for _ in 0..(if ctx.thorough { 3000 } else { 300 }) {
+            for _ in 0..(if ctx.thorough { 3000 } else { 120 }) {
                 let len = rng.range(2, 16) as usize;
                 let off = rng.below((4112 - len + 1) as u64) as usize;
                 let pat = rng.below(1 << len) as u32 | 1 | (1 << (len - 1));
@@ -693,7 +693,7 @@ pub fn c13(ctx: &Ctx) -> Report {
                 ends.push(rig.bus.borrow().miso_bytes);
             }
             let total = *ends.last().unwrap();
-            let npoints = if ctx.thorough { 260 } else { 26 };
+            let npoints = if ctx.thorough { 260 } else { 9 };
             for j in 0..npoints {
                 let pos = if j < total.min(npoints / 2) && ctx.thorough { j } else { rng.below(total as u64) as usize };
                 let mode = (j % 3) as u8;
